@@ -340,7 +340,8 @@ func buildP2Scenario(r *core.R, p p2ScenParams) *p2Scenario {
 		}
 		pk := par2rw.Packet{SetID: env.ref.SetID, Type: par2rw.TypeRecv, Body: rv.Body()}
 		name := strings.TrimSuffix(filepath.Base(env.idx), ".par2") + ".vol900+01.par2"
-		os.WriteFile(filepath.Join(env.dir, name), pk.Bytes(), 0644)
+		// (a creator packet makes it a complete file as far as readers care)
+		os.WriteFile(filepath.Join(env.dir, name), par2rw.Serialize([]par2rw.Packet{env.ref.CreatorPacket("some other client"), pk}), 0644)
 		sc.corruptVolume = name
 	case p.Kind == "at-capacity":
 		// keep exactly k blocks if possible (volumes hold 1,2,4,.. blocks)
@@ -564,6 +565,7 @@ func (c *c03) Run(cs core.Case) core.Result {
 		if sc.corruptVolume != "" {
 			// refusing a damaged recovery file is legitimate (C13 judges that side)
 			r.Count("verify_refused_corrupt_volume", 1)
+			r.SetAdd("refusal_reasons", p.Kind+": "+err.Error())
 			r.Key("corrupt-volume-refused|%s", sc.opKinds())
 			return r.Done()
 		}
